@@ -25,12 +25,27 @@ CHECKS = {
  "C07": ("exploration", "recorded-history checking (porcupine reservation model) + reference-model oracles at barriers + race detector",
          "2-16 goroutines issue PRNG Fund/FundV2/Redistribute/SplitUTXO/Release/sign/submit/Balance/SpendableOutputs calls against a wallet while blocks are mined, with barriers, restarts and an option sweep (36 settings x 3 regimes); every call is logged at the caller boundary; oracles: eligibility of every selected input, disjointness (porcupine per-output reservation model + direct check at barriers), conservation, pool acceptance of the signed result, agreement of Balance/SpendableOutputs/selection at barriers and after restarts (fund exactly spendable succeeds, +1H fails), reservation expiry with explicit sleeps; -race is deciding.",
          "Only the reference EphemeralWalletStore; no reorgs in these histories; acceptance is undecided when a block overlaps the selecting/submitting call.", "§3 C07"),
+ "C08": ("fault_enumeration", "recording-proxy monitoring of every Contractor call with a pairwise revision oracle, enumerated corruption table, race detector",
+         "Every persisting call the server makes on a recording Contractor is audited against its predecessor revision (strictly higher number, renter and host signatures over exactly that revision, immutable fields, payout directions, sum constant) and against core's ReviseFor*/RenewContract/Refresh* applied to the tapped request (exact amount due); all 131 RPC x corruption entries (bad/replayed/stale challenge, foreign/expired/edited price table, out-of-range parameters, bad round-2 signatures, replayed exchanges) must cause zero persisting calls, zero writes and an equal snapshot; after each commit a revision transaction passes consensus validation; 2-8 concurrent raw clients on one contract under -race.",
+         "In-repo EphemeralContractor/SectorStore and an in-memory transport; the handler-quiescence barrier (server-side stream close) orders snapshots.", "§3 C08"),
+ "C09": ("fault_enumeration", "abort-point and index-selection enumeration with snapshot and list-model oracles at a handler-quiescence barrier",
+         "All ordered index selections for contracts of n<=5 (quick) / n<=7 (thorough) sectors through a raw renter, duplicate/out-of-range lists, honest-client tuples, append batches over known/unknown roots, and every abort point of free/append/replenish/roots/fund (transport cuts at byte offsets inside each of the 4 messages, renter stops, bad round-2 signatures); after EVERY attempt MetaRoot(roots) must equal the committed root and count x SectorSize the file size; failures leave revision/roots/balances byte-equal; successes equal the list model, list with proofs the honest client accepts, and read back.",
+         "Exhaustive within the stated sizes; in-repo contractor and sector store; in-memory transport.", "§3 C09"),
+ "C10": ("fault_enumeration", "man-in-the-middle response mutation table with ground-truth oracle on success",
+         "A typed MITM in front of the honest in-repo host rewrites every field of every host->renter message of every renter RPC with {bit flips, zero, max, +-1, truncate, extend, duplicate, swap with another exchange, re-sign with the real host key after altering the signed object, coherent forgeries, RPCError injection, cuts, silence}; whenever the client call reports success the result is compared with ground truth (sector bytes, roots, list model, locally computable successor revision, host signature over the returned object, cost bound); every call must return by its deadline. The table is enumerated deterministically.",
+         "Errors are always acceptable; unauthenticated-by-design RPCs (settings, balance) are liveness-only; RPCLatestRevision is a known finding (KF-C10-1).", "§3 C10"),
  "C13": ("exploration", "reference-model monitoring of proof rebasing against pure ledgers along path(from->to)",
          "For PRNG pairs of applied indices on the same or different forks of generated trees and v2 sets valid at 'from' (ephemeral chains, siafund spends, contract formation/revision/renewal/storage proof/expiration), the result of UpdateV2TransactionSet is compared with the expectation computed from the pure ledgers: input minus confirmed in order, each parent element equal to the ledger's leaf index and proof at 'to', ephemeral inputs that became confirmed carry the confirmed element, errors (never panics) for corrupted proofs/leaf indices/unknown bases and for elements that never existed on the target chain; V2TransactionSet ordering/basis/acceptance; caller memory; paths of 1..160 blocks.",
          "Only indices that were the best tip at some moment are used as from/to (others carry header-only states); an element re-created with the same id on the other fork may be refused (no verdict); spent-at-target gives no verdict.", "§3 C13"),
  "C14": ("exploration", "API-contract monitoring of pool submission/lookup on generated pool states",
          "Generated pool states holding v1 and v2 transactions together; after every submission (fresh, partly known, all known, conflicting with the pool at position k, invalid at position k) the listing is compared with the all-or-nothing expectation, the known flag with its definition, caller memory with its byte image and the pool with itself after scribbling over submitted/returned values; both lookup functions are called with every v1 id, v2 id and random ids under a panic guard.",
          "Transactions are produced and labelled by the pure generator (core/consensus); basis = tip for v2 submissions here (rebasing is C13).", "§3 C14"),
+ "C15": ("exploration", "proxy-log replay against a reference account/pool ledger, porcupine bank model for concurrent clients",
+         "The recorded Contractor/SectorStore log is replayed against a reference ledger: credits backed by renter-signed revisions moving the same total, debits equal to the priced cost of the tapped request and preceding the matching ReadSector/StoreSector, insufficient drawable funds (own balance then pools in attachment order, at cost-1/cost/cost+1) => bare error, no data, no balance change; replenish = max(old,target); attach/detach only with valid signatures; 4-8 concurrent clients on shared accounts checked per account by porcupine against a sequential bank model.",
+         "In-repo EphemeralContractor; in-memory transport.", "§3 C15"),
+ "C16": ("fault_enumeration", "abort/corruption table over both directions of form/renew/refresh with wallet-snapshot and on-chain oracles",
+         "16 abort points x 10 basis relations x 2 input kinds plus the full field x operator table over all four messages in both directions: on success the renter's contract equals the host's stored one with valid signatures, the set is accepted by the pool and after mining the chain holds exactly that contract with each side having paid its computed share; on failure or abort the host recorded no contract and both wallets' spendable sets are restored behind the quiescence barrier; 20 consecutive aborts must not prevent a clean attempt.",
+         "Two in-process nodes; known finding KF-C16-1 (witness data of the returned set is not validated by the client).", "§3 C16"),
  "C17": ("exploration", "exhaustive operation-sequence enumeration against an overlay-map reference model on every backend",
          "Every operation sequence over a 9-operation alphabet up to length 5 (quick) / 7 (thorough) is executed on MemDB, CacheDB over MemDB/CacheDB/Bolt and BoltChainDB, comparing Get of every key and a full Iter after each operation and the durable image at the end with the model; plus long PRNG sequences. Exhaustive within the stated bound, sampled beyond it.",
          "Trusts bbolt's transaction semantics; bucket handles are re-fetched per operation as DBStore does; keys and values non-empty.", "§3 C17"),
